@@ -1,7 +1,7 @@
 (** C20 - Server addresses parse according to the documented grammar. Statements only. *)
 From Coq Require Import ZArith List Bool Lia.
 From Coq Require Import String.
-From VD Require Import Base.Bytes Base.Text Model.Server Proofs.ServerP Gen.ParseServer Proofs.ServerTie.
+From VD Require Import Base.Bytes Base.Text Model.Server Proofs.ServerP Gen.ParseServer Proofs.ServerTie Proofs.ServerConvP.
 Import ListNotations.
 Open Scope Z_scope.
 
@@ -65,6 +65,31 @@ Print Assumptions C20_reject.
 Theorem C20_number : forall n, digits n -> py_int n = Some (dec_val n).
 Proof. exact py_int_digits. Qed.
 Print Assumptions C20_number.
+
+(** "... instead of yielding a guessed address": the converse of [C20_grammar].  Whenever an
+    unbracketed string yields an address at all, the string has one of three shapes - [h],
+    [h:n], or [h:m:n] with [n] a number Python's int() accepts ([m] is ignored; for the empty
+    [m] this is the documented [h::n]; a non-empty [m] is the observation of DESIGN 5) - and
+    host, family and port are the ones that shape names.  No other string yields an address. *)
+Theorem C20_accepts_only : forall ex v6 s fam host port,
+  starts_with [LBRACK] s = false ->
+  parse_server ex v6 s = Some (fam, host, port) ->
+  exists h, ~ In COLON h /\ host = eff_host h /\ fam = fam_of ex h /\
+    ((s = h /\ port = 5900) \/
+     (exists n v, ~ In COLON n /\ s = h ++ COLON :: n /\ py_int n = Some v /\ port = v + 5900) \/
+     (exists m n, ~ In COLON m /\ ~ In COLON n /\ s = h ++ COLON :: m ++ COLON :: n /\ py_int n = Some port)).
+Proof. exact unbracketed_accepts_only. Qed.
+Print Assumptions C20_accepts_only.
+
+(** and a bracketed string yields an address only as "[" a "]" rest with [a] accepted by
+    IPv6Address; family IPv6, host exactly [a], port from [rest] *)
+Theorem C20_bracketed_accepts_only : forall ex v6 s fam host port,
+  starts_with [LBRACK] s = true ->
+  parse_server ex v6 s = Some (fam, host, port) ->
+  fam = AF_INET6 /\ v6 host = true /\ ~ In RBRACK host /\
+  exists rest, s = LBRACK :: host ++ RBRACK :: rest /\ port_of (split_on COLON rest) = Some port.
+Proof. exact bracketed_accepts_only. Qed.
+Print Assumptions C20_bracketed_accepts_only.
 
 Example C20_nonvacuous :
   host_ok (text_of_ascii "example.org"%string) /\ digits (text_of_ascii "42"%string) /\
